@@ -1511,6 +1511,18 @@ def infer_ndim(t):
     if isinstance(n, int):
         return n
     op, a = t.op, t.args
+    if op == "attr":
+        # declared ranks of attribute paths of an input root: atom(meta ndims={"noise.mean_flat": 2})
+        path, cur = [], t
+        while isinstance(cur, T.Term) and cur.op == "attr":
+            path.append(cur.args[1])
+            cur = cur.args[0]
+        if isinstance(cur, T.Term):
+            d = cur.meta.get("ndims")
+            if d:
+                r = d.get(".".join(reversed(path)))
+                if isinstance(r, int):
+                    return r
     if op in ("np.reshape",) and len(a) == 2 and isinstance(a[1], (tuple, list)):
         return len(a[1])
     if op in ("np.ones", "np.zeros") and a and isinstance(a[0], (tuple, list)):
